@@ -141,6 +141,7 @@ class Evaluator:
         self.max_inline_depth = max_inline_depth
         self.inline_methods_on_ctor = inline_methods_on_ctor
         self.self_inline = set(self_inline)
+        self.known_len_fields = {}  # attribute name -> static length (verified separately by a rule)
         self._inlining = []
         self.unresolved = set()
 
@@ -376,6 +377,8 @@ class Evaluator:
             self.assign_target(tgt.value, val, fr, st)
 
     def known_items(self, val):
+        if isinstance(val, tuple) and val and val[0] == "attr" and val[2] in self.known_len_fields:
+            return [self.index(val, C(i)) for i in range(self.known_len_fields[val[2]])]
         if isinstance(val, tuple) and val and val[0] in ("tuple", "list"):
             if any(isinstance(x, tuple) and x and x[0] == "star" for x in val[1]):
                 return None
